@@ -187,6 +187,11 @@ func checkRing[T comparable](t *rapid.T, r *ring[T]) {
 				c.Fail("wrong-"+what, fmt.Sprintf("got %v want %v", g, want))
 				return false
 			}
+			// … and it must be the canonical object: same limbs as the element built from the reference value
+			if w := r.from(want); *got != w || (r.isEqual != nil && r.isEqual(got, &w) != 1) {
+				c.Fail("non-canonical-"+what, fmt.Sprintf("value %v is right but the element differs from the canonical one", want))
+				return false
+			}
 			return true
 		}
 		switch op {
